@@ -693,10 +693,17 @@ func c08SignWith(t *testing.T, rep *kit.Report, key string, lc *localChain, gp *
 		}
 		out <- c08SignOutcome{res.Signature, nil}
 	}
-	outs := make([]chan c08SignOutcome, len(selected))
-	for i, f := range selected {
-		outs[i] = make(chan c08SignOutcome, 2)
-		go run(f, outs[i])
+	type c08Done struct {
+		f int
+		o c08SignOutcome
+	}
+	merged := make(chan c08Done, len(selected))
+	for _, f := range selected {
+		go func(f int) {
+			ch := make(chan c08SignOutcome, 2)
+			run(f, ch)
+			merged <- c08Done{f, <-ch}
+		}(f)
 	}
 	intr := make([]chan c08SignOutcome, len(intruders))
 	for i, f := range intruders {
@@ -704,28 +711,39 @@ func c08SignWith(t *testing.T, rep *kit.Report, key string, lc *localChain, gp *
 		go run(f, intr[i])
 	}
 	t0 := time.Now()
-	var sigs []*tecdsa.Signature
+	sigBy := map[int]*tecdsa.Signature{}
 	good := true
-	for i, f := range selected {
-		o := <-outs[i]
-		if o.err != nil {
-			mu.Lock()
-			wd := wireDiverged
-			mu.Unlock()
-			if wd {
-				good = false
-				continue
-			}
-			if ctx.Err() != nil && !strings.HasPrefix(o.err.Error(), "panic:") && !strings.HasPrefix(o.err.Error(), "no signer") &&
-				!strings.HasPrefix(o.err.Error(), "final operators") {
-				// the budget ran out: slowness must never become a violation
-				t.Fatalf("harness: signing of %s did not finish within %v (signer %d: %v)", key, budget, f, o.err)
-			}
-			rep.Diverge(key+":sign", fmt.Sprintf("signer with final index %d failed: %v", f, o.err), map[string]interface{}{"signers": selected}, "signature", o.err.Error())
+	for range selected {
+		d := <-merged
+		if d.o.err == nil {
+			sigBy[d.f] = d.o.sig
+			continue
+		}
+		mu.Lock()
+		wd := wireDiverged
+		mu.Unlock()
+		if wd || !good {
+			// consequence of a divergence already recorded for this attempt (the context was cancelled)
 			good = false
 			continue
 		}
-		sigs = append(sigs, o.sig)
+		if ctx.Err() == context.DeadlineExceeded && !strings.HasPrefix(d.o.err.Error(), "panic:") {
+			// the budget ran out: slowness must never become a violation
+			if rep.NDivergences() > 0 {
+				rep.Note("signing of %s did not finish within %v after earlier divergences", key, budget)
+				return false
+			}
+			t.Fatalf("harness: signing of %s did not finish within %v (signer %d: %v)", key, budget, d.f, d.o.err)
+		}
+		rep.Diverge(key+":sign", fmt.Sprintf("signer with final index %d failed: %v", d.f, d.o.err), map[string]interface{}{"signers": selected}, "signature", d.o.err.Error())
+		good = false
+		cancel() // the attempt cannot complete without this signer
+	}
+	var sigs []*tecdsa.Signature
+	for _, f := range selected {
+		if sigBy[f] != nil {
+			sigs = append(sigs, sigBy[f])
+		}
 	}
 	rep.Count("real_signings", 1)
 	rep.Extra["last_signing_wall_s"] = time.Since(t0).Seconds()
@@ -794,6 +812,11 @@ func TestVerif_C08_Sign(t *testing.T) {
 	rnd := kit.Rand(88)
 	seed := big.NewInt(200)
 	for ri, r := range runs {
+		if rep.NDivergences() > 0 {
+			rep.Note("remaining real signing runs skipped after a divergence")
+			rep.Eval("", nil)
+			continue
+		}
 		n, h, q := r.Get("n").Int(), r.Get("h").Int(), r.Get("quorum").Int()
 		if n != 5 || h != 3 {
 			t.Fatalf("harness: real signing needs the 3-of-5 fixture group, got n=%d h=%d", n, h)
@@ -875,6 +898,8 @@ func TestVerif_C08_KeygenSign(t *testing.T) {
 		}
 		outc := make(chan kgOut, n)
 		var wg sync.WaitGroup
+		var firstErr sync.Once
+		realFailure := false
 		t0 := time.Now()
 		for m := 1; m <= n; m++ {
 			if c08Contains(excluded, m) {
@@ -897,6 +922,10 @@ func TestVerif_C08_KeygenSign(t *testing.T) {
 				ex := dkg.VerifNewExecutor([]*keygen.LocalPreParams{&fix[m-1].LocalPreParams}, 2)
 				res, err := ex.Execute(ctx, &testutils.MockLogger{}, seed, "verif-c08-session", group.MemberIndex(m), n,
 					gp.DishonestThreshold(), c08Idx(excluded), ch, validator)
+				if err != nil && ctx.Err() == nil {
+					firstErr.Do(func() { realFailure = true })
+					cancel() // the others cannot complete without this member
+				}
 				outc <- kgOut{m, res, err}
 			}(m)
 		}
@@ -906,9 +935,13 @@ func TestVerif_C08_KeygenSign(t *testing.T) {
 		failed := false
 		for o := range outc {
 			if o.err != nil {
-				if ctx.Err() != nil && !strings.HasPrefix(o.err.Error(), "panic:") {
+				if ctx.Err() == context.DeadlineExceeded && !realFailure && !strings.HasPrefix(o.err.Error(), "panic:") {
 					cancel()
 					t.Fatalf("harness: key generation %s did not finish within %v (member %d: %v)", key, kgBudget, o.m, o.err)
+				}
+				if ctx.Err() == context.Canceled && realFailure && strings.Contains(o.err.Error(), "context canceled") {
+					failed = true // consequence of another member's failure
+					continue
 				}
 				rep.Diverge(key+":keygen", fmt.Sprintf("key generation failed for member %d: %v", o.m, o.err), r.X, "result", o.err.Error())
 				failed = true
